@@ -1137,7 +1137,9 @@ def certify(instances, tactic_params=None, jobs=16, timeout=None, tag="misc", cl
             fname = "%s_%d.v" % (name, gen)
             path = os.path.join(d, fname)
             spans = _write_file(path, todo, ["goal"] * len(todo), [i.prec for i in todo], P["sentence_timeout"])
-            ft = P["file_timeout"] if remaining() is None else max(10, min(P["file_timeout"], remaining()))
+            # hangs are caught per sentence (Set Default Timeout); the shell timeout only has to respect the overall budget
+            est = 30 + 3 * P["sentence_timeout"] + 20 * sum(cost(i) for i in todo)
+            ft = max(P["file_timeout"], est) if remaining() is None else max(10, remaining())
             rc, out, secs, cmd = _run_coqc(path, ft)
             cmds.append(cmd)
             if rc == 0:
